@@ -678,6 +678,19 @@ func RunBatch(s *Scenario, o BatchOpts) *Batch {
 	if ctl.HarnessPanic != "" {
 		b.HarnessError = append(b.HarnessError, "control run: "+ctl.HarnessPanic)
 	}
+	if ctl.Viol != nil {
+		// the control run is the first execution in this process: state that is written only on first use
+		// (lazy initialisation) can only misbehave here, so its violations count like any other run's
+		if f := o.Known.Match(ctl.Viol); f != nil {
+			b.KnownHits[f.ID]++
+		} else {
+			rec := ViolationRecord{RunIndex: -1, RunSeed: ctlSeed, Viol: ctl.Viol}
+			if o.ReplayDir != "" {
+				rec.Replay = reportViolation(s, o, -1, ctlSeed, ctl)
+			}
+			b.Violations = append(b.Violations, rec)
+		}
+	}
 
 	unknown := 0
 	count := 0
